@@ -75,6 +75,10 @@ leaf_like!(NoDbg; Cmp, Hash, Clone, Default, Zeroize);             // no Debug: 
 leaf_like!(NoZ; Cmp, Hash, Clone, Debug, Default);                 // no Zeroize: needs skip or skip(Zeroize)
 leaf_like!(NoEq; PartialOnly, Hash, Clone, Debug, Default, Zeroize); // PartialEq/PartialOrd but not Eq/Ord (like f32)
 
+/// Generic wrapper with std-derived impls: `Wr<u8>` is `Eq`, `Wr<NoEq>` is not (same head name, different arguments).
+#[derive(Clone, Copy, Debug, Default, PartialEq, Eq, PartialOrd, Ord, Hash)]
+pub struct Wr<X>(pub X);
+
 /// Implements nothing.
 pub struct Nothing(pub u8);
 
